@@ -98,3 +98,11 @@ Definition fmodel_ok (c : fcase) : bool :=
 Definition fspec_ok (c : fcase) : bool :=
   let '(gs, codes) := factorize (f_sort c) (f_expected c) (f_labels c) in
   list_z_eqb gs (f_groups c) && spec_ok (with_codes (f_base c) gs codes).
+
+(* ---- rechunk helper cases (K2) ---- *)
+From Flox Require Import Rechunk.
+Definition blockwise_case_ok (c : list Z * list Z * list Z) : bool :=
+  let '(chunks, labels, impl) := c in list_z_eqb (optimal_chunks chunks labels) impl.
+Definition cohorts_case_ok (c : list Z * list Z * Z * bool * list Z * list Z) : bool :=
+  let '(force, oldchunks, chunksize, ign, labels, impl) := c in
+  list_z_eqb (cohort_chunks force oldchunks chunksize ign labels) impl.
